@@ -112,7 +112,8 @@ func (s *sched) Run(c *verifhook.Cmd) error {
 	var err error
 	if probe {
 		s.log("probe", tool)
-		if state == "missing" {
+		// broken: the binary is on the PATH (`which` finds it) but every invocation of it fails
+		if state == "missing" || (state == "broken" && c.Args[0] != "which") {
 			err = &exec.ExitError{}
 		}
 	} else {
@@ -120,7 +121,7 @@ func (s *sched) Run(c *verifhook.Cmd) error {
 		switch state {
 		case "missing":
 			err = &exec.Error{Name: tool, Err: exec.ErrNotFound}
-		case "failing":
+		case "failing", "broken":
 			err = &exec.ExitError{}
 		}
 	}
@@ -308,6 +309,15 @@ func check(sc scenario, o outcome) (clause, detail string) {
 		tool := formatTool[f]
 		key := tool + " " + fmt.Sprintf("file%d", i)
 		state := sc.env[tool]
+		if state == "broken" {
+			// the tool is absent exactly when its probe command fails: `which goimports` succeeds on a
+			// broken goimports (its runs then fail), the other tools are probed by running them
+			if tool == "goimports" {
+				state = "failing"
+			} else {
+				state = "missing"
+			}
+		}
 		switch {
 		case f == generator.NoFormat:
 			if o.errs[i] != "" {
@@ -379,7 +389,7 @@ func scenarios(n int) []scenario {
 				tl = append(tl, t)
 			}
 			sort.Strings(tl)
-			states := []string{"ok", "missing", "failing"}
+			states := []string{"ok", "missing", "failing", "broken"}
 			var envRec func(i int, env map[string]string)
 			envRec = func(i int, env map[string]string) {
 				if i == len(tl) {
